@@ -852,6 +852,20 @@ impl BigDecimal {
 
         let target_precision = DEFAULT_PRECISION;
 
+        if self.is_negative() {
+            // the alternating series suffers from cancellation for negative
+            // arguments: evaluate e^|x| and take the reciprocal
+            let exp_abs = self.abs().exp_series(target_precision + 5);
+            let recip = impl_division(BigInt::one(), &exp_abs.int_val, -exp_abs.scale, target_precision + 5);
+            return recip.with_prec(target_precision);
+        }
+
+        self.exp_series(target_precision + 5).with_prec(target_precision)
+    }
+
+    /// Sum the Taylor series of e<sup>x</sup> until the value, trimmed
+    /// to the given precision, stops changing
+    fn exp_series(&self, trimmed_precision: u64) -> BigDecimal {
         let precision = self.digits();
 
         let mut term = self.clone();
@@ -865,9 +879,9 @@ impl BigDecimal {
             // ∑ term=x^n/n!
             result += impl_division(term.int_val.clone(), &factorial, term.scale, 117 + precision);
 
-            let trimmed_result = result.with_prec(target_precision + 5);
+            let trimmed_result = result.with_prec(trimmed_precision);
             if prev_result == trimmed_result {
-                return trimmed_result.with_prec(target_precision);
+                return trimmed_result;
             }
             prev_result = trimmed_result;
         }
